@@ -270,7 +270,7 @@ func (fr *fmtRun) genTrees() error {
 
 // fmtPinned: the minimal reproducer of every listed finding; always run, attributed like any other case.
 var fmtPinned = []string{
-	"a - (b - c)", "a == (b == c)", "a = (b = c)",
+	"a - (b - c)", "a == (b == c)", "a = (b = c)", "a + (b + c)",
 	"a - -b", "a + +b", "a - --b",
 	"x = \"\\x07\\x08\\x0b\\x0c\"",
 	"a + (x => x)", "-(x => x)",
